@@ -39,6 +39,7 @@ WHAT TO DELIVER: {n} independent changes ({', '.join(letters)}), each a small, r
   1. the workspace still compiles (no new warnings turned errors) and `cargo test --workspace --no-fail-fast --offline` still passes completely, unedited;
   2. the property above is violated for SOME inputs / histories, but NOT for the ones ordinary use or small simple inputs would exercise at once. The violation must need something specific to manifest: an unusual but legal input, a size beyond a threshold, two features that must coincide, a particular order of operations or insertion, a multi-step sequence, state carried over between items, aliasing, a legal-but-rare encoding, a boundary value. Prefer triggers that a random generator of small inputs would rarely hit by accident, and prefer code paths and clauses of the property that the earlier changes listed below did NOT touch (read the anchored files and the code around them widely before choosing; the less obvious the site, the better). Each of your {n} changes must attack a different clause / code path from the others.
   3. it must be a genuine violation of the property AS STATED (not merely of something you would find desirable), on inputs inside the domain the property quantifies over.
+Experience from earlier rounds: changes whose trigger was merely "a small unusual input" were nearly always noticed. The ones that stayed unnoticed longest needed (a) a structure that is legal but that no ordinary producer emits (duplicated or shared entries, an entry in an unusual state such as present-but-unnamed, a name that shares a prefix or a half with another), (b) an exact limit of the format or a size beyond an internal threshold (depth, count, length) that only a deliberately built input reaches, (c) an API entry point, option, or input form that ordinary callers do not use but that is public and covered by the property, or (d) history: something that only goes wrong on the second use of an object, after a failed operation, or when two operations are combined. Aim there.
 Do not special-case a magic constant name or a literal "if input == X" trap — the change should look like something a maintainer could really commit and a reviewer could wave through.
 
 EARLIER CHANGES (already known for this property — do not repeat these or close variants of them):
